@@ -27,9 +27,16 @@ def post(scn, tr, a):
             continue
         from ..model import common
         path = {s["sid"]: tuple(s.get("path", [])) for s in scn["sims"]}
-        weak_into = {c["dst"] for c in scn["conns"] if c.get("weak")}
+        # groups in which sub-time is generated: the closest common group of the two ends of a weak connection
+        weak_groups = set()
+        for c2 in scn["conns"]:
+            if c2.get("weak"):
+                k2 = common(path[c2["src"]], path[c2["dst"]])
+                if k2 >= 1:
+                    weak_groups.add(path[c2["src"]][:k2])
+        # the async source can perform sub-steps (it lives inside such a group) and shares a group with the agent
         qual = [c for c in scn["conns"] if c.get("async") and common(path[c["src"]], path[c["dst"]]) >= 1
-                and c["src"] in weak_into]
+                and any(path[c["src"]][:len(g)] == g for g in weak_groups)]
         v["async_source_with_substeps_in_shared_group"] = bool(qual)
         if qual:
             # counterfactual at the scenario level: the same scenario without the async_requests flags,
